@@ -55,6 +55,12 @@ impl Timer {
     self.cycle_count
   }
 
+  /// Verification hook: the full 16-bit divider (DIV is its upper byte)
+  #[cfg(gb_dynarec_verif)]
+  pub fn verif_cycle_count(&self) -> u32 {
+    self.cycle_count
+  }
+
   pub fn set_counter(&mut self, value: u8) {
     self.counter = value;
   }
